@@ -691,10 +691,28 @@ RULE_C08 = ("(img) memory images: attribute block classes {valid, bad checksum, 
             "answering after command j for every j of the reference run; (adv) at every command position of the "
             "reference run one well-framed adversarial response {empty, LEN-only, truncated at 10/11/12/13 bytes, "
             "wrong LEN, wrong response code, wrong IDm, status flags set, fewer/more blocks, block count 0, random "
-            "bytes, flipped data bit (MAC protected reads on authenticated Lite/Lite-S)}. evaluated: activate, "
-            "tag.ndef, length, capacity, octets, has_changed, tag.ndef again. distinct by full case descriptor")
+            "bytes, flipped data bit (MAC protected reads on authenticated Lite/Lite-S)}; (dlg) the activation / NDEF "
+            "detection dialogue: discovery cells SENSF_RES {17 bytes, RD 12FCh, RD FFFFh, RD other system, RD = "
+            "communication performance} x NFCID2 prefix {02FE, 03FE, 01FE} x reader class {Type3Tag, FelicaStandard, "
+            "FelicaMobile, FelicaLite, FelicaLiteS, FelicaPlug by IC code} x layout {empty, one data read, several data "
+            "reads, NDEF system second}; the fault-free dialogue of each cell is logged (commands actually sent: Polling "
+            "for 12FCh when the SENSF_RES named no/another system, Read Without Encryption) and for each command kind "
+            "every standard-conformant / non-conformant but well-framed response variant is delivered once at a "
+            "position and by a tag that always answers so: Polling {payload length -2..+4 (+2 = unrequested request "
+            "data 12FCh / FFFFh / 0083h), IDm only, no payload, LEN FFh, other response code, other IDm, NFC-DEP IDm, "
+            "other PMm / IC code, mute}, Read {data length -2..+4, block count +-1 / 0 with unchanged data, one block "
+            "fewer / more, status flags only (success and error), error flags with data, SF2 only, no status flags, "
+            "LEN FFh, other response code, other IDm, mute}. evaluated: activate, tag.ndef, length, capacity, octets, "
+            "has_changed, tag.ndef again. distinct by full case descriptor. SENSF_RES of 18/20/21 bytes are outside the "
+            "property's quantifier and only observed (t3t_c08_obs_*)")
 REQUIRED_C08 = ["t3t_c08_evals", "t3t_c08_ndef_none", "t3t_c08_ndef_object", "t3t_c08_stop_positions",
-                "t3t_c08_adv_cases", "t3t_c08_octets_checked"]
+                "t3t_c08_adv_cases", "t3t_c08_octets_checked",
+                "t3t_c08_dlg_cells", "t3t_c08_dlg_poll_cases", "t3t_c08_dlg_read_cases", "t3t_c08_dlg_poll_sent",
+                "t3t_c08_dlg_ndef_after_poll", "t3t_c08_dlg_poll_unrequested_rd", "t3t_c08_dlg_poll_other_length",
+                "t3t_c08_dlg_read_other_length", "t3t_c08_dlg_disc_none", "t3t_c08_dlg_disc_12fc",
+                "t3t_c08_dlg_disc_ffff", "t3t_c08_dlg_disc_other", "t3t_c08_dlg_class_Type3Tag",
+                "t3t_c08_dlg_class_FelicaStandard", "t3t_c08_dlg_class_FelicaMobile", "t3t_c08_dlg_class_FelicaLite",
+                "t3t_c08_dlg_class_FelicaLiteS", "t3t_c08_dlg_class_FelicaPlug"]
 
 ATTR_CLASSES = ["valid", "valid", "bad_checksum", "version", "ln_over_mem", "ln_over_nomem", "nbr0", "nbr_big",
                 "nmaxb_beyond", "writef", "random_fixed", "random", "no_block0", "nbw0", "ln_huge"]
@@ -710,8 +728,9 @@ ADV_AUTH_VARIANTS = ["flipdata", "fewer", "more", "count0", "empty", "trunc11_sf
 def plan_c08(tier):
     if tier == "quick":
         return [{"part": "img", "n": 18000}, {"part": "stop", "n": 1200}, {"part": "adv", "n": 70},
-                {"part": "adv_auth", "n": 4}]
+                {"part": "adv_auth", "n": 4}, {"part": "dlg", "full": False}]
     out = [{"part": "img", "n": 150000, "sub": i, "timeout": 1500} for i in range(5)]
+    out += [{"part": "dlg", "full": True, "sub": i, "timeout": 1500} for i in range(3)]
     out += [{"part": "stop", "n": 12000, "sub": i, "timeout": 1500} for i in range(3)]
     out += [{"part": "adv", "n": 500, "sub": i, "timeout": 1500} for i in range(5)]
     out += [{"part": "adv_auth", "n": 20, "sub": i, "timeout": 1500} for i in range(3)]
@@ -803,6 +822,11 @@ def c08_model(case):
         model.pmm = bytes([model.pmm[0], lay["ic"]]) + model.pmm[2:]
         if 0x83 in model.blocks:
             model.blocks[0x83][8:16] = model.pmm
+    if case.get("mode") == "dlg" and "ic" in lay:
+        # the reader's class follows the IC code of the PMm, the tag model keeps its personality
+        model.pmm = bytes([model.pmm[0], lay["ic"]]) + model.pmm[2:]
+        if 0x83 in model.blocks:
+            model.blocks[0x83][8:16] = model.pmm
     return model
 
 
@@ -815,6 +839,9 @@ def run_c08(desc, R, rng):
             c08_eval(case, R)
             if R.counters.get("t3t_c08_nonterm", 0) >= 20:
                 return
+        return
+    if part == "dlg":
+        c08_run_dlg(desc, R, rng)
         return
     for i in range(desc["n"]):
         if R.counters.get("t3t_c08_nonterm", 0) >= 20:
@@ -860,6 +887,213 @@ def run_c08(desc, R, rng):
                     c08_eval(case, R)
                     R.count("t3t_c08_adv_cases")
                     R.seen("t3t_c08_adv_variants", v)
+
+
+# ---- (dlg) the activation / NDEF detection dialogue: discovery variants x reader class x response variants ---------
+DLG_RD = ["none", "12fc", "ffff", "other", "perf"]
+DLG_RD_BYTES = {"none": b"", "12fc": b"\x12\xFC", "ffff": b"\xFF\xFF", "perf": b"\x00\x83"}
+DLG_PREFIX = ["02FE", "03FE", "01FE"]
+# reader class nfc.tag.tt3_sony.activate selects from the IC code (PMm byte 1) -> tag model personality, IC codes
+DLG_CLASSES = [
+    ("Type3Tag", "generic", [0xAA, 0xFF, 0x03, 0x30, 0xE2, 0xF3]),
+    ("FelicaStandard", "standard", [0x00, 0x01, 0x02, 0x08, 0x09, 0x0B, 0x0C, 0x0D, 0x20, 0x32, 0x35]),
+    ("FelicaMobile", "standard", [0x06, 0x07, 0x10, 0x14, 0x1F]),
+    ("FelicaLite", "lite", [0xF0]),
+    ("FelicaLiteS", "lites", [0xF1, 0xF2]),
+    ("FelicaPlug", "generic", [0xE0, 0xE1]),
+]
+DLG_LAYOUTS = ["several", "one", "empty", "second"]
+DLG_POLL_VARIANTS = ["len-2", "len-1", "len+1", "len+2", "len+3", "len+4", "rd_perf", "rd_ffff", "idm_only", "no_payload",
+                     "max", "code03", "code07", "idm_other", "idm_dep", "pmm_ic_f0", "pmm_ic_01", "pmm_ic_aa", "pmm_ff",
+                     "mute"]
+DLG_READ_VARIANTS = ["len-2", "len-1", "len+1", "len+2", "len+3", "len+4", "nb+1", "nb-1", "nb0", "blocks-1", "blocks+1",
+                     "sf_ok_nodata", "sf_err_nodata", "sf_err_data", "sf2_only", "hdr10", "hdr11", "max", "code09", "code01",
+                     "idm_other", "mute"]
+DLG_VARIANTS = {0x00: DLG_POLL_VARIANTS, 0x06: DLG_READ_VARIANTS}
+# SENSF_RES that is neither "with" nor "without" system code: outside the quantifier of C08, observed only
+DLG_ODD_RD = [b"\x12", b"\x12\xFC\x00", b"\x12\xFC\x00\x83"]
+C08_ODD_SENSF_RES_IS_VIOLATION = False
+
+
+def dlg_layout(cls, kind, ic, shape, prefix, rng):
+    if kind in ("lite", "lites"):
+        lay = {"kind": kind, "nbw": 1}
+        lay.update({"several": {"nbr": 2, "nmaxb": 5, "old_len": 70}, "one": {"nbr": 4, "nmaxb": 4, "old_len": 33},
+                    "empty": {"nbr": 4, "nmaxb": 13, "old_len": 0}, "second": {"nbr": 1, "nmaxb": 2, "old_len": 32}}[shape])
+    else:
+        lay = {"kind": kind, "extra": 1}
+        lay.update({"several": {"nbr": 2, "nbw": 1, "nmaxb": 5, "old_len": 70},
+                    "one": {"nbr": 12, "nbw": 8, "nmaxb": 9, "old_len": 129},
+                    "empty": {"nbr": 1, "nbw": 1, "nmaxb": 3, "old_len": 0},
+                    "second": {"nbr": 3, "nbw": 2, "nmaxb": 4, "old_len": 49}}[shape])
+        if kind == "standard" and shape == "second":
+            lay["other_systems"] = [0x0003]
+    lay["ndef_first"] = shape != "second"
+    lay["ic"] = ic
+    lay["old_salt"] = rng.randrange(1, 200)
+    lay["brty"] = rng.choice(["212F", "424F"])
+    lay["idm"] = bytes.fromhex(prefix) + bytes(rng.randrange(256) for _ in range(6))
+    if kind == "standard":
+        lay["idm"] = bytes([lay["idm"][0] & 0x0F]) + lay["idm"][1:]      # upper nibble = system index
+    return lay
+
+
+def c08_run_dlg(desc, R, rng):
+    full = desc.get("full", False)
+    cells = [(rd, prefix, c) for rd in DLG_RD for prefix in DLG_PREFIX for c in DLG_CLASSES]
+    for ci, (rd, prefix, (cls, kind, ics)) in enumerate(cells):
+        if R.counters.get("t3t_c08_nonterm", 0) >= 20:
+            return
+        if full and (ci + ci // len(DLG_CLASSES)) % 3 != desc.get("sub", 0) % 3:
+            continue                                  # the thorough tier deals the cells out to its three shards
+        for ic in (ics if full else [ics[(ci + desc.get("seed", 0)) % len(ics)]]):
+            shapes = DLG_LAYOUTS if full else [DLG_LAYOUTS[(ci // 3 + ci + desc.get("seed", 0)) % 3], "second"][:1 + (ci % 4 == 0)]
+            for shape in shapes:
+                lay = dlg_layout(cls, kind, ic, shape, prefix, rng)
+                disc = {"rd": rd}
+                if rd == "other":
+                    disc["rdbytes"] = rng.choice([b"\x88\xB4", b"\x00\x03", b"\xFE\x00", b"\x12\xFD", b"\x12\xFF",
+                                                  b"\xFF\xFC", bytes([rng.randrange(256), rng.randrange(256)])])
+                    if disc["rdbytes"] == b"\x12\xFC":
+                        disc["rdbytes"] = b"\x40\x00"
+                c08_dlg_cell(lay, disc, cls, R, rng, full)
+    # observation only: SENSF_RES with 1, 3 or 4 bytes behind the PMm
+    for i, rdbytes in enumerate(DLG_ODD_RD):
+        cls, kind, ics = DLG_CLASSES[i % len(DLG_CLASSES)]
+        lay = dlg_layout(cls, kind, ics[0], "one", "02FE", rng)
+        c08_eval({"family": FAM, "mode": "dlg", "layout": lay, "disc": {"rd": "odd", "rdbytes": rdbytes},
+                  "observe_only": True}, R)
+
+
+def c08_dlg_cell(lay, disc, cls, R, rng, full):
+    info = {}
+    ref = {"family": FAM, "mode": "dlg", "layout": lay, "disc": disc}
+    c08_eval(ref, R, info=info)
+    R.count("t3t_c08_dlg_cells")
+    R.count("t3t_c08_dlg_disc_" + disc["rd"])
+    if info.get("cls") is None:
+        R.count("t3t_c08_dlg_not_a_tag")         # NFC-DEP prefix 01FE: nfc.tag.activate yields None
+        return
+    R.count("t3t_c08_dlg_class_" + info["cls"])
+    if info["cls"] != cls:
+        R.inconc("t3t C08 dlg: IC code %02Xh gave reader class %s, the cell expects %s" % (lay["ic"], info["cls"], cls))
+    codes = info.get("codes", [])
+    for c in codes:
+        R.seen("t3t_c08_dlg_command_codes", "%02X" % c)
+    if 0x00 in codes and info.get("ndef"):
+        R.count("t3t_c08_dlg_ndef_after_poll")
+    for code, variants in sorted(DLG_VARIANTS.items()):
+        positions = [p for p, c in enumerate(codes) if c == code]
+        if not positions:
+            continue
+        once = positions
+        if code == 0x06 and not full and len(positions) > 3:
+            once = [positions[0]] + sorted(rng.sample(positions[1:], 2))
+        for v in variants:
+            for scope, pos in [("always", None)] + [("once", p) for p in once]:
+                case = {"family": FAM, "mode": "dlg", "layout": lay, "disc": disc, "cmd": code, "scope": scope,
+                        "variant": v}
+                if pos is not None:
+                    case["pos"] = pos
+                c08_eval(case, R)
+                R.count("t3t_c08_dlg_cases")
+                R.count("t3t_c08_dlg_poll_cases" if code == 0x00 else "t3t_c08_dlg_read_cases")
+                R.seen("t3t_c08_dlg_variants", "%02X/%s" % (code, v))
+
+
+def dlg_sense(case):
+    disc = case["disc"]
+    rd = bytes(disc["rdbytes"]) if "rdbytes" in disc else DLG_RD_BYTES[disc["rd"]]
+
+    def fn(target, found):
+        if found is None:
+            return None
+        return nfc.clf.RemoteTarget(found.brty, sensf_res=bytearray(bytes(found.sensf_res[:17]) + rd))
+    return fn
+
+
+def dlg_tamper(case):
+    v, scope, pos, code = case.get("variant"), case.get("scope"), case.get("pos"), case.get("cmd")
+
+    def fix(b):
+        b = bytearray(b)
+        b[0] = len(b) & 0xFF
+        return bytes(b)
+
+    def vary(g):
+        if v == "mute" or g is None:
+            return None
+        g = bytes(g)
+        if v.startswith("len"):
+            d = int(v[3:])
+            return fix(g[:d]) if d < 0 else fix(g + b"\x12\xFC\x00\x83"[:d])
+        if v in ("rd_perf", "rd_ffff"):
+            return fix(g[:18] + (b"\x00\x83" if v == "rd_perf" else b"\xFF\xFF"))
+        if v in ("idm_only", "hdr10"):
+            return fix(g[:10])
+        if v == "hdr11":
+            return fix(g[:11])
+        if v == "no_payload":
+            return fix(g[:2])
+        if v == "max":
+            return fix((g + bytes(255))[:255])
+        if v.startswith("code"):
+            return g[0:1] + bytes([int(v[4:], 16)]) + g[2:]
+        if v == "idm_other":
+            return g[0:5] + bytes([g[5] ^ 0x10]) + g[6:]
+        if v == "idm_dep":
+            return g[0:2] + b"\x01\xFE" + g[4:]
+        if v.startswith("pmm_ic_"):
+            return g[0:11] + bytes([int(v[7:], 16)]) + g[12:]
+        if v == "pmm_ff":
+            return g[0:10] + b"\xFF" * 8 + g[18:]
+        # ---- Read Without Encryption: LEN 07 IDm SF1 SF2 NB data
+        if v in ("nb+1", "nb-1", "nb0"):
+            if len(g) <= 12:
+                return g
+            return g[:12] + bytes([{"nb+1": g[12] + 1, "nb-1": g[12] - 1, "nb0": 0}[v] & 0xFF]) + g[13:]
+        if v == "blocks-1":
+            return fix(g[:12] + bytes([g[12] - 1]) + g[13:-16]) if len(g) >= 13 + 16 else fix(g[:12])
+        if v == "blocks+1":
+            if len(g) > 12 and len(g) + 16 <= 255:
+                return fix(g[:12] + bytes([(g[12] + 1) & 0xFF]) + g[13:] + bytes(16))
+            return g
+        if v == "sf_ok_nodata":
+            return fix(g[:10] + b"\x00\x00")
+        if v == "sf_err_nodata":
+            return fix(g[:10] + b"\x01\xA8")
+        if v == "sf_err_data":
+            return g[:10] + b"\x01\xA8" + g[12:]
+        if v == "sf2_only":
+            return g[:10] + b"\x00\xA8" + g[12:]
+        raise AssertionError(v)
+
+    def fn(n, cmd, g):
+        if v is None or len(cmd) < 2 or cmd[1] != code:
+            return g
+        if scope == "once" and n != pos:
+            return g
+        return vary(g)
+    return fn
+
+
+def c08_dlg_observe(case, dev, base, R):
+    """what actually went over the wire in a dialogue case (delivered responses only)"""
+    for _n, cmd, rsp in dev.log[base:]:
+        if not cmd or len(cmd) < 2:
+            continue
+        if cmd[1] == 0x00:
+            R.count("t3t_c08_dlg_poll_sent")
+            if isinstance(rsp, bytes) and len(rsp) >= 2 and rsp[0] == len(rsp) and rsp[1] == 0x01:
+                if len(cmd) == 6 and cmd[4] == 0 and len(rsp) == 20:
+                    R.count("t3t_c08_dlg_poll_unrequested_rd")
+                elif len(rsp) != 18:
+                    R.count("t3t_c08_dlg_poll_other_length")
+                    R.seen("t3t_c08_dlg_poll_rsp_lengths", len(rsp))
+        elif cmd[1] == 0x06 and isinstance(rsp, bytes) and len(rsp) >= 13 and rsp[0] == len(rsp) and rsp[1] == 0x07:
+            nb_at = 11 + 2 * cmd[10] if len(cmd) > 10 else len(cmd)
+            if rsp[10] == 0 and nb_at < len(cmd) and len(rsp) != 13 + 16 * cmd[nb_at]:
+                R.count("t3t_c08_dlg_read_other_length")
 
 
 def replay_c08(case, R):
@@ -930,21 +1164,25 @@ def c08_tamper(case):
     return fn
 
 
-def c08_eval(case, R, count_only=False):
+def c08_eval(case, R, count_only=False, info=None):
     lay, mode = case["layout"], case["mode"]
     model = c08_model(case)
     front = model
     if mode == "adv":
         front = Tamper(model, c08_tamper(case), enabled=False)
+    elif mode == "dlg":
+        front = Tamper(model, dlg_tamper(case), enabled=False, sense_fn=dlg_sense(case))
     key = [mode, lkey(lay), case.get("attr_class"), case.get("attr"), case.get("j"), case.get("pos"),
            case.get("variant"), case.get("bytes"), case.get("bit")]
+    if mode == "dlg":
+        key += [lay.get("idm"), case["disc"].get("rd"), case["disc"].get("rdbytes"), case.get("cmd"), case.get("scope")]
     stage = "activate"
     nd = None
     res = {}
 
     def viol(sig, what):
         R.violation("t3t/" + sig, what + " [mode %s, layout %r, %s]" % (mode, lkey(lay), {
-            k: case.get(k) for k in ("attr_class", "j", "pos", "variant") if k in case}), case)
+            k: case.get(k) for k in ("attr_class", "j", "pos", "variant", "disc", "cmd", "scope") if k in case}), case)
 
     try:
         with fixed_challenge():
@@ -959,8 +1197,10 @@ def c08_eval(case, R, count_only=False):
                 if tag.authenticate(lay["password"]) is not True:
                     raise RuntimeError("setup: authentication failed")
         base = dev.n_commands
-        if mode == "adv":
+        if mode in ("adv", "dlg"):
             front.enabled = True
+        if info is not None:
+            info["cls"] = type(tag).__name__
         if mode == "stop":
             j = case["j"]
 
@@ -998,11 +1238,23 @@ def c08_eval(case, R, count_only=False):
     except Exception as e:
         R.case(key)
         R.count("t3t_c08_evals")
+        if case.get("observe_only") and not C08_ODD_SENSF_RES_IS_VIOLATION:
+            # input class outside the quantifier of the property: recorded, not judged
+            R.count("t3t_c08_obs_odd_sensf_res_raised")
+            R.seen("t3t_c08_obs_odd_sensf_res", "%d bytes: escape/%s/%s" % (17 + len(case["disc"]["rdbytes"]), stage, esc_sig(e)))
+            return 0
         R.count("t3t_c08_raised")
         viol("escape/%s/%s" % (stage, esc_sig(e)), "%s raised %s: %s" % (stage, type(e).__name__, str(e)[:120]))
         return 0
     if count_only:
         return ncmd
+    if mode == "dlg":
+        c08_dlg_observe(case, dev, base, R)
+        if case.get("observe_only"):
+            R.count("t3t_c08_obs_odd_sensf_res_ok")
+        if info is not None:
+            info["codes"] = [e[1][1] for e in dev.log[base:] if e[1] and len(e[1]) > 1]
+            info["ndef"] = nd is not None
     R.case(key)
     R.count("t3t_c08_evals")
     R.max("t3t_c08_commands_per_eval", ncmd)
@@ -1015,7 +1267,9 @@ def c08_eval(case, R, count_only=False):
         if "length" + suffix in res and res["length" + suffix] > res["capacity" + suffix]:
             viol("c08/length>capacity", "NDEF object with length %d > capacity %d" % (res["length" + suffix], res["capacity" + suffix]))
             break
-    if mode in ("img", "stop", "ref"):
+    if mode in ("img", "stop", "ref", "dlg"):
+        # (dlg: the response variants never alter block data, they only cut it short or append to it, so every
+        # delivered data byte is genuine and an NDEF object still has to show the content of the data area)
         # untampered bytes: the octets must come from the data area the attribute block declares (blocks 1..Nmaxb)
         b0 = model.get_block(0)
         a = t3_attr.decode(b0) if b0 else None
